@@ -514,5 +514,319 @@ Proof.
     + intros k Ik. rewrite keys_app in Ik. apply in_app_or in Ik. destruct Ik as [Ik|[Ik|[]]];
         [apply HT; exact Ik | subst; apply HQ; exact Hin].
     + rewrite keys_app. cbn [keys map fst]. apply NoDup_snoc; assumption.
-    + rewrite app_length. cbn [length]. match goal with |- ?g => idtac g end. match goal with H : (_ < _)%nat |- _ => let t := type of H in idtac t end. lia.
+    + rewrite app_length. cbn [length]. unfold path in *. lia.
 Qed.
+
+(* ---- what `texts` says about the disk -------------------------------------------------------- *)
+Lemma entry_keys : forall fs texts files, Forall2 (entry_ok fs) texts files -> keys texts = keys files.
+Proof.
+  intros fs texts files F. induction F as [|kt km texts files [E _] F IH]; [reflexivity|].
+  cbn [keys map]. f_equal; [exact E | exact IH].
+Qed.
+
+Lemma entry_lookup_text : forall fs texts files k t,
+  Forall2 (entry_ok fs) texts files -> lookup k texts = Some t -> fs_read W fs k = Some t.
+Proof.
+  intros fs texts files k t F. induction F as [|[k1 t1] km texts files [E [R P]] F IH]; cbn [lookup]; [discriminate|].
+  cbn [fst snd] in *. case_str k k1.
+  - intro H. inversion H; subst. exact R.
+  - exact IH.
+Qed.
+
+Lemma entry_lookup_model : forall fs texts files k m,
+  Forall2 (entry_ok fs) texts files -> In (k, m) files ->
+  NoDup (keys texts) -> exists t, lookup k texts = Some t /\ parse W t = Some m.
+Proof.
+  intros fs texts files k m F. induction F as [|[k1 t1] [k2 m2] texts files [E [R P]] F IH]; intros I ND; [destruct I|].
+  cbn [fst snd keys map] in *. subst k2. inversion ND as [|? ? Hn ND']; subst. destruct I as [I|I].
+  - inversion I; subst. exists t1. cbn [lookup]. rewrite str_eqb_refl. auto.
+  - destruct (IH I ND') as [t [L Pt]]. exists t. split; [|exact Pt]. cbn [lookup]. case_str k k1; [|exact L].
+    subst. exfalso. apply Hn. change (In k1 (keys texts)). apply has_In. unfold has. rewrite L. reflexivity.
+Qed.
+
+Lemma read_raw : forall fs k t, w_translate W = false -> fs_read W fs k = Some t -> content fs (cn k) = Some t.
+Proof.
+  unfold fs_read, content. intros fs k t T H. rewrite T in H. destruct (lookup (cn k) (fs_files fs)); congruence.
+Qed.
+
+Lemma write_ops_writes : forall texts files' k,
+  In (OpWrite k) (write_ops texts files') -> In k (written_keys texts files').
+Proof.
+  intros texts files' k I. unfold write_ops in I. apply in_flat_map in I. destruct I as [km [I J]].
+  apply in_app_or in J. destruct J as [J|J].
+  - unfold mk_ops in J. destruct (w_guard W && is_empty (dirname W (fst km))); [destruct J|].
+    destruct J as [J|[]]. discriminate.
+  - destruct (will_write texts km) eqn:Wr; [|destruct J]. destruct J as [J|[]]. inversion J; subst.
+    unfold written_keys, keys. apply in_map. apply filter_In. auto.
+Qed.
+
+(* ---- edit_file_recursive ---------------------------------------------------------------------- *)
+(* 1. the read phase: every key is opened (and parsed) exactly once, in the order of the dict; the root
+      is there and the key set is closed under include directives; texts/files describe the disk *)
+Theorem visits_each_once : forall fuel fs root tr texts files,
+  bfs W fuel fs [normpath W root] [] [] = (tr, EOk (texts, files)) ->
+  tr = map OpRead (keys files) /\ NoDup (keys files) /\ keys texts = keys files /\
+  In (normpath W root) (keys files) /\ includes_closed files (keys files) /\
+  Forall2 (entry_ok fs) texts files.
+Proof.
+  intros fuel fs root tr texts files H.
+  assert (Cl0 : includes_closed [] (keys (@nil (path * str)) ++ [normpath W root])) by (intros k m ps []).
+  destruct (bfs_ok _ _ _ _ _ _ _ _ H (Forall2_nil _) (NoDup_nil _) Cl0) as [nt [nf [Et [Ef [Htr [F [ND [Cl Hq]]]]]]]].
+  cbn [app] in Et, Ef. subst nt nf. pose proof (entry_keys _ _ _ F) as EK.
+  rewrite <- EK. repeat split; try assumption.
+  apply Hq. left. reflexivity.
+Qed.
+
+(* 2. the BFS stops on every include graph: cycles and diamonds cost nothing, fuel = |U| + 1 suffices for
+      any finite set U of spellings that contains the root and is closed under the include directives *)
+Theorem read_phase_terminates : forall (U : list path) fuel fs root,
+  In (normpath W root) U ->
+  (forall k text m ps, In k U -> fs_read W fs k = Some text -> parse W text = Some m ->
+     include_paths W k m = EOk ps -> forall p, In p ps -> In p U) ->
+  (length U < fuel)%nat ->
+  snd (bfs W fuel fs [normpath W root] [] []) <> EErr EOutOfFuel.
+Proof.
+  intros U fuel fs root Hr HU Hlen. apply (bfs_terminates U); try assumption.
+  - intros p [E|[]]. subst. exact Hr.
+  - intros k [].
+  - constructor.
+  - cbn [length]. lia.
+Qed.
+
+(* 3. if the block raises - or cannot be entered - nothing is written, unlinked or created *)
+Theorem raise_touches_nothing : forall fuel fs root body fs' tr r,
+  edit_file_recursive W fuel fs root body = (fs', tr, r) ->
+  (forall files, body files = None) ->
+  fs' = fs /\ forallb is_read tr = true /\ exists e, r = EErr e.
+Proof.
+  unfold edit_file_recursive. intros fuel fs root body fs' tr r H Hb.
+  destruct (bfs W fuel fs [normpath W root] [] []) as [tr1 [[texts files]|e]] eqn:B.
+  - rewrite Hb in H. inversion H; subst. split; [reflexivity|]. split; [eapply bfs_reads; exact B | eauto].
+  - inversion H; subst. split; [reflexivity|]. split; [eapply bfs_reads; exact B | eauto].
+Qed.
+
+Theorem failed_entry_touches_nothing : forall fuel fs root body tr e,
+  bfs W fuel fs [normpath W root] [] [] = (tr, EErr e) ->
+  edit_file_recursive W fuel fs root body = (fs, tr, EErr e) /\ forallb is_read tr = true.
+Proof.
+  unfold edit_file_recursive. intros fuel fs root body tr e B. rewrite B. split; [reflexivity|].
+  eapply bfs_reads. exact B.
+Qed.
+
+(* 4. a completed block, decomposed *)
+Definition completed fuel fs root (body : body_t W) texts files files' fs' tr : Prop :=
+  exists tr1 tr2,
+    bfs W fuel fs [normpath W root] [] [] = (tr1, EOk (texts, files)) /\ body files = Some files' /\
+    exit_phase W fs texts files' = (fs', tr2, EOk tt) /\ tr = tr1 ++ tr2.
+
+Lemma completed_inv : forall fuel fs root body fs' tr,
+  edit_file_recursive W fuel fs root body = (fs', tr, EOk tt) ->
+  exists texts files files', completed fuel fs root body texts files files' fs' tr.
+Proof.
+  unfold edit_file_recursive, completed. intros fuel fs root body fs' tr H.
+  destruct (bfs W fuel fs [normpath W root] [] []) as [tr1 [[texts files]|e]] eqn:B; [|discriminate].
+  destruct (body files) as [files'|] eqn:Bd; [|discriminate].
+  destruct (exit_phase W fs texts files') as [[fs2 tr2] r2] eqn:X. inversion H; subst.
+  exists texts, files, files', tr1, tr2. auto.
+Qed.
+
+(* 5. the file-system calls of a completed block are exactly: one read per key, one unlink per removed
+      key, then per entry of the dict the makedirs and - only if the printed text differs - one write;
+      removed entries are gone, every entry holds what the loop decided, nothing else changed *)
+Theorem completed_spec : forall fuel fs root body texts files files' fs' tr,
+  completed fuel fs root body texts files files' fs' tr ->
+  alias_free texts files' ->
+  tr = map OpRead (keys files) ++ map OpUnlink (removed_keys W texts files') ++ write_ops texts files' /\
+  (forall k, In k (removed_keys W texts files') -> content fs' (cn k) = None) /\
+  (forall k m, In (k, m) files' ->
+     content fs' (cn k) = if will_write texts (k, m) then Some (print W m) else content fs (cn k)) /\
+  (forall c, ~ In c (map cn (removed_keys W texts files' ++ written_keys texts files')) ->
+     content fs' c = content fs c).
+Proof.
+  intros fuel fs root body texts files files' fs' tr [tr1 [tr2 [B [Bd [X Et]]]]] AF.
+  destruct (visits_each_once _ _ _ _ _ _ B) as [Htr1 _].
+  destruct (exit_phase_ok _ _ _ _ _ X AF) as [Htr2 [Hrm [Hen Hfr]]].
+  split; [congruence|]. auto.
+Qed.
+
+(* 5a. an entry whose model the body did not change is not written: no write call on any spelling of
+       it, same content.  (print_parse is C01 for the text that was read.) *)
+Theorem unchanged_not_written : forall fuel fs root body texts files files' fs' tr k m,
+  completed fuel fs root body texts files files' fs' tr -> alias_free texts files' ->
+  (forall t m0, parse W t = Some m0 -> print W m0 = t) ->
+  In (k, m) files -> In (k, m) files' ->
+  content fs' (cn k) = content fs (cn k) /\
+  (forall k', In (OpWrite k') tr -> cn k' <> cn k) /\ ~ In (OpUnlink k) tr.
+Proof.
+  intros fuel fs root body texts files files' fs' tr k m C AF PP I I'.
+  destruct (completed_spec _ _ _ _ _ _ _ _ _ C AF) as [Htr [_ [Hen _]]].
+  destruct C as [tr1 [tr2 [B [Bd [X Et]]]]].
+  destruct (visits_each_once _ _ _ _ _ _ B) as [_ [ND [EK [_ [_ F]]]]].
+  destruct (entry_lookup_model _ _ _ _ _ F I) as [t [L P]]; [rewrite EK; exact ND|].
+  assert (Wf : will_write texts (k, m) = false).
+  { unfold will_write, differs. cbn [fst snd]. rewrite L. rewrite (PP _ _ P). rewrite str_eqb_refl. reflexivity. }
+  split; [rewrite (Hen _ _ I'), Wf; reflexivity|].
+  unfold alias_free in AF. rewrite map_app in AF.
+  assert (NDc : NoDup (map cn (keys files'))) by (eapply NoDup_app_r; exact AF).
+  assert (Ik : In k (keys files')) by (apply in_map_iff; exists (k, m); auto).
+  split.
+  - intros k' Iw E. rewrite Htr in Iw. apply in_app_or in Iw. destruct Iw as [Iw|Iw];
+      [apply in_map_iff in Iw; destruct Iw as [? [? _]]; discriminate|].
+    apply in_app_or in Iw. destruct Iw as [Iw|Iw]; [apply in_map_iff in Iw; destruct Iw as [? [? _]]; discriminate|].
+    apply write_ops_writes in Iw. pose proof (written_keys_incl _ _ _ Iw) as Ik'.
+    assert (k' = k) by (eapply NoDup_map_inj_on; eassumption). subst k'.
+    unfold written_keys, keys in Iw. apply in_map_iff in Iw. destruct Iw as [[k2 m2] [E2 Iw]].
+    apply filter_In in Iw. destruct Iw as [I2 W2]. cbn [fst] in E2. subst k2.
+    assert (m2 = m).
+    { pose proof (In_lookup_nodup _ _ _ (NoDup_map_keys _ _ NDc) I2) as L2.
+      pose proof (In_lookup_nodup _ _ _ (NoDup_map_keys _ _ NDc) I') as L1. congruence. }
+    subst m2. unfold will_write in W2, Wf. cbn [fst snd] in W2, Wf. congruence.
+  - intro Iu. rewrite Htr in Iu. apply in_app_or in Iu. destruct Iu as [Iu|Iu];
+      [apply in_map_iff in Iu; destruct Iu as [? [? _]]; discriminate|].
+    apply in_app_or in Iu. destruct Iu as [Iu|Iu].
+    + apply in_map_iff in Iu. destruct Iu as [k2 [E2 Iu]]. inversion E2; subst.
+      apply removed_keys_spec in Iu. tauto.
+    + unfold write_ops in Iu. apply in_flat_map in Iu. destruct Iu as [km [_ J]].
+      apply in_app_or in J. destruct J as [J|J].
+      * unfold mk_ops in J. destruct (w_guard W && is_empty (dirname W (fst km))); [destruct J|].
+        destruct J as [J|[]]. discriminate.
+      * destruct (will_write texts km); [|destruct J]. destruct J as [J|[]]. discriminate.
+Qed.
+
+(* 5b. a changed entry holds exactly the printed model *)
+Theorem changed_exact : forall fuel fs root body texts files files' fs' tr k m t,
+  completed fuel fs root body texts files files' fs' tr -> alias_free texts files' ->
+  In (k, m) files' -> lookup k texts = Some t -> print W m <> t ->
+  content fs' (cn k) = Some (print W m).
+Proof.
+  intros fuel fs root body texts files files' fs' tr k m t C AF I L N.
+  destruct (completed_spec _ _ _ _ _ _ _ _ _ C AF) as [_ [_ [Hen _]]].
+  rewrite (Hen _ _ I). unfold will_write, differs. cbn [fst snd]. rewrite L.
+  apply str_eqb_neq in N. rewrite N. reflexivity.
+Qed.
+
+(* 5c. ... and when files are opened without newline translation, EVERY entry of the dict holds exactly
+       the printed model afterwards, byte for byte: the text the parser saw is the content of the disk,
+       so whatever the printer reproduces unchanged (C01/C03) - carriage returns included - is unchanged *)
+Theorem every_entry_printed_exactly : forall fuel fs root body texts files files' fs' tr k m,
+  completed fuel fs root body texts files files' fs' tr -> alias_free texts files' ->
+  w_translate W = false ->
+  In (k, m) files' -> content fs' (cn k) = Some (print W m).
+Proof.
+  intros fuel fs root body texts files files' fs' tr k m C AF T I.
+  destruct (completed_spec _ _ _ _ _ _ _ _ _ C AF) as [_ [_ [Hen _]]].
+  destruct C as [tr1 [tr2 [B [Bd [X Et]]]]].
+  destruct (visits_each_once _ _ _ _ _ _ B) as [_ [_ [_ [_ [_ F]]]]].
+  rewrite (Hen _ _ I). unfold will_write, differs. cbn [fst snd].
+  destruct (lookup k texts) as [t|] eqn:L; [|reflexivity].
+  case_str (print W m) t; cbn [negb]; [|reflexivity].
+  rewrite E. apply read_raw; [exact T|]. eapply entry_lookup_text; eassumption.
+Qed.
+
+Theorem texts_are_disk_bytes : forall fuel fs root tr texts files k t,
+  bfs W fuel fs [normpath W root] [] [] = (tr, EOk (texts, files)) -> w_translate W = false ->
+  lookup k texts = Some t -> content fs (cn k) = Some t.
+Proof.
+  intros fuel fs root tr texts files k t B T L.
+  destruct (visits_each_once _ _ _ _ _ _ B) as [_ [_ [_ [_ [_ F]]]]].
+  apply read_raw; [exact T|]. eapply entry_lookup_text; eassumption.
+Qed.
+
+(* 5d. entries removed from the dict are unlinked; 5e. new entries are created *)
+Theorem removed_unlinked : forall fuel fs root body texts files files' fs' tr k,
+  completed fuel fs root body texts files files' fs' tr -> alias_free texts files' ->
+  In k (keys files) -> ~ In k (keys files') ->
+  content fs' (cn k) = None /\ In (OpUnlink k) tr.
+Proof.
+  intros fuel fs root body texts files files' fs' tr k C AF I N.
+  destruct (completed_spec _ _ _ _ _ _ _ _ _ C AF) as [Htr [Hrm _]].
+  destruct C as [tr1 [tr2 [B [Bd [X Et]]]]].
+  destruct (visits_each_once _ _ _ _ _ _ B) as [_ [_ [EK _]]].
+  assert (R : In k (removed_keys W texts files')) by (apply removed_keys_spec; rewrite EK; auto).
+  split; [apply Hrm; exact R|]. rewrite Htr. apply in_or_app. right. apply in_or_app. left. apply in_map. exact R.
+Qed.
+
+Theorem added_created : forall fuel fs root body texts files files' fs' tr k m,
+  completed fuel fs root body texts files files' fs' tr -> alias_free texts files' ->
+  In (k, m) files' -> ~ In k (keys files) ->
+  content fs' (cn k) = Some (print W m) /\ In (OpWrite k) tr.
+Proof.
+  intros fuel fs root body texts files files' fs' tr k m C AF I N.
+  destruct (completed_spec _ _ _ _ _ _ _ _ _ C AF) as [Htr [_ [Hen _]]].
+  destruct C as [tr1 [tr2 [B [Bd [X Et]]]]].
+  destruct (visits_each_once _ _ _ _ _ _ B) as [_ [_ [EK _]]].
+  assert (L : lookup k texts = None).
+  { destruct (lookup k texts) eqn:L; [|reflexivity]. exfalso. apply N. rewrite <- EK. apply has_In.
+    unfold has. rewrite L. reflexivity. }
+  assert (Wt : will_write texts (k, m) = true) by (unfold will_write, differs; cbn [fst snd]; rewrite L; reflexivity).
+  split; [rewrite (Hen _ _ I), Wt; reflexivity|].
+  rewrite Htr. apply in_or_app. right. apply in_or_app. right. unfold write_ops. apply in_flat_map.
+  exists (k, m). split; [exact I|]. apply in_or_app. right. rewrite Wt. left. reflexivity.
+Qed.
+
+(* 5f. no file outside the removed and rewritten entries is touched *)
+Theorem nothing_else_touched : forall fuel fs root body texts files files' fs' tr c,
+  completed fuel fs root body texts files files' fs' tr -> alias_free texts files' ->
+  ~ In c (map cn (removed_keys W texts files' ++ written_keys texts files')) ->
+  content fs' c = content fs c.
+Proof.
+  intros fuel fs root body texts files files' fs' tr c C AF N.
+  destruct (completed_spec _ _ _ _ _ _ _ _ _ C AF) as [_ [_ [_ Hfr]]]. apply Hfr. exact N.
+Qed.
+
+(* 6. with the guard, a key without directory part never reaches os.makedirs *)
+Theorem bare_key_no_makedirs : forall k,
+  w_guard W = true -> dirname W k = [] -> mk_ops k = [].
+Proof. intros k G D. unfold mk_ops. rewrite G, D. reflexivity. Qed.
+
+(* ---- edit_file -------------------------------------------------------------------------------- *)
+Theorem edit_file_spec : forall fs p body fs' tr r,
+  edit_file W fs p body = (fs', tr, r) ->
+  match r with
+  | EErr _ => fs' = fs /\ (forall o, In o tr -> o = OpRead (ppath W p) \/ (o = OpWrite (ppath W p) /\ r = EErr EOSError))
+  | EOk _ => exists text m m', fs_read W fs (ppath W p) = Some text /\ parse W text = Some m /\ body m = Some m' /\
+      if str_eqb (print W m') text then fs' = fs /\ tr = [OpRead (ppath W p)]
+      else tr = [OpRead (ppath W p); OpWrite (ppath W p)] /\
+           content fs' (cn (ppath W p)) = Some (print W m') /\
+           forall c, c <> cn (ppath W p) -> content fs' c = content fs c
+  end.
+Proof.
+  unfold edit_file. intros fs p body fs' tr r H.
+  destruct (fs_read W fs (ppath W p)) as [text|] eqn:Rd.
+  2:{ inversion H; subst. split; [reflexivity|]. intros o [E|[]]. left. auto. }
+  destruct (parse W text) as [m|] eqn:Pa.
+  2:{ inversion H; subst. split; [reflexivity|]. intros o [E|[]]. left. auto. }
+  destruct (body m) as [m'|] eqn:Bd.
+  2:{ inversion H; subst. split; [reflexivity|]. intros o [E|[]]. left. auto. }
+  destruct (str_eqb (print W m') text) eqn:Eq; cbn [negb] in H.
+  - inversion H; subst. exists text, m, m'. rewrite Eq. repeat split; auto.
+  - destruct (fs_write W fs (ppath W p) (print W m')) as [fs2|] eqn:Wr; inversion H; subst.
+    + exists text, m, m'. rewrite Eq. destruct (fs_write_spec _ _ _ _ Wr) as [_ [A B]]. repeat split; auto.
+    + split; [reflexivity|]. intros o [E|[E|[]]]; [left | right]; auto.
+Qed.
+
+Theorem edit_file_raise_touches_nothing : forall fs p body fs' tr r,
+  edit_file W fs p body = (fs', tr, r) -> (forall m, body m = None) ->
+  fs' = fs /\ forallb is_read tr = true /\ exists e, r = EErr e.
+Proof.
+  unfold edit_file. intros fs p body fs' tr r H Hb.
+  destruct (fs_read W fs (ppath W p)) as [text|]; [|inversion H; subst; cbn; eauto].
+  destruct (parse W text) as [m|]; [|inversion H; subst; cbn; eauto].
+  rewrite Hb in H. inversion H; subst; cbn; eauto.
+Qed.
+
+(* any two spellings of the same file give the same disk and the same outcome *)
+Theorem edit_file_spelling : forall fs p p' body,
+  cn (ppath W p) = cn (ppath W p') ->
+  fst (fst (edit_file W fs p body)) = fst (fst (edit_file W fs p' body)) /\
+  snd (edit_file W fs p body) = snd (edit_file W fs p' body).
+Proof.
+  intros fs p p' body E. unfold edit_file, fs_read, fs_write. rewrite E.
+  destruct (lookup (cn (ppath W p')) (fs_files fs)) as [raw|]; [|split; reflexivity].
+  destruct (parse W _) as [m|]; [|split; reflexivity].
+  destruct (body m) as [m'|]; [|split; reflexivity].
+  destruct (negb _); [|split; reflexivity].
+  destruct (mem _ _); split; reflexivity.
+Qed.
+
+End Proofs.
